@@ -122,4 +122,6 @@ def main(tier):
                'witness' if n else 'inconclusive', None, 0, 0, n, detail=None if n else 'no witnesses produced')
     from checks import readerside
     readerside.c01_part(rep, st, tier)
+    from checks import extglue
+    extglue.run(rep, st, tier)       # the Python extension hands the caller's arrays to the library unchanged (data pointers, strides)
     return rep.finish()
